@@ -49,7 +49,8 @@ pub fn sent_items(obs: &str) -> Vec<Sent> {
         let Ok(k) = pk.trim_start_matches('P').parse::<usize>() else { continue };
         let Some(r) = rest.strip_prefix("send ") else { continue };
         let f: Vec<&str> = r.split_whitespace().collect();
-        let Some(bytes) = f.last().and_then(|h| unhex(h)) else { continue };
+        // the frame is the one token without '=' after the interface name (a trailing `q=<n>` may follow)
+        let Some(bytes) = f.iter().skip(1).find(|t| !t.contains('=')).and_then(|h| unhex(h)) else { continue };
         let ctx = f.iter().find(|x| x.starts_with("ctx=")).map(|x| x[4..].to_string()).unwrap_or_default();
         v.push(Sent { port: k, event: f.first() == Some(&"evt"), ctx, bytes });
     }
